@@ -111,7 +111,7 @@ package smtp
 //@     invariant forall k :: i <= k && k < len(b) ==> b[k] == s[k]
 
 //@ contract (*Conn).writeResponse(c, code, enhCode, text)
-//@   prop C04 C17
+//@   prop C04 C13 C17
 //@   requires c != nil && c.server != nil && c.conn != nil && c.text != nil
 //@   requires @C04 reply-code-valid: 200 <= code && code <= 599
 //@   requires @C04 enhanced-code-of-the-same-class: enhOK(code, enhCode)
@@ -585,7 +585,7 @@ package smtp
 //@   ensures @C13 an-open-transfer-keeps-its-collector: old(c.bdatStatus) != nil ==> c.bdatStatus == old(c.bdatStatus) || c.bdatStatus == nil
 //@   ensures @C04,C13 lmtp-one-reply-or-one-per-recipient: c.server.LMTP ==> c.finals == old(c.finals) + 1 || (c.finals == old(c.finals) + len(old(c.recipients)) && nfields(arg) == 2 && len(old(c.recipients)) >= 1)
 //@   ensures @C03 out-of-order-refused: !old(c.fromReceived) || len(old(c.recipients)) == 0 ==> c.lastCode >= 500 && c.bdatPipe == nil && c.cbData == old(c.cbData)
-//@   ensures @C03 failed-chunk-ends-transaction: c.lastCode != 250 && old(c.fromReceived) && len(old(c.recipients)) > 0 && bdatDeclaredOK(arg) && !c.closed ==> !c.fromReceived && len(c.recipients) == 0 && c.bdatPipe == nil
+//@   ensures @C03,C07 failed-chunk-ends-transaction: c.lastCode != 250 && old(c.fromReceived) && len(old(c.recipients)) > 0 && bdatDeclaredOK(arg) && !c.closed ==> !c.fromReceived && len(c.recipients) == 0 && c.bdatPipe == nil
 //@   ensures @C07 old-pipe-not-left-open: old(c.bdatPipe) != nil && c.bdatPipe != old(c.bdatPipe) ==> old(c.bdatPipe).state != 0
 //@   ensures @C03,C05 an-open-transfer-is-continued-not-restarted: old(c.bdatPipe) != nil ==> c.bdatPipe == old(c.bdatPipe) || c.bdatPipe == nil
 //@   ensures @C06 accumulated-size-within-limit: c.server.MaxMessageBytes > 0 ==> c.bytesReceived <= c.server.MaxMessageBytes
@@ -723,6 +723,7 @@ package smtp
 
 //@ contract parseEnhancedCode(s) (code, err)
 //@   prop C17
+//@   pure
 //@   ensures @C17 three-numbers-separated-by-dots-and-nothing-else: (err == nil) == enhTextOK(s)
 //@   ensures @C17 each-part-is-the-number-written: err == nil ==> code[0] == atoiVal(splitAt(s, ".", -1, 0)) && code[1] == atoiVal(splitAt(s, ".", -1, 1)) && code[2] == atoiVal(splitAt(s, ".", -1, 2))
 //@   loop 1:
@@ -731,6 +732,7 @@ package smtp
 
 //@ contract toSMTPErr(protoErr) (r)
 //@   prop C17
+//@   pure
 //@   requires protoErr != nil
 //@   fresh r
 //@   ensures r != nil
@@ -945,6 +947,7 @@ package smtp
 //@   prop C16
 //@   requires clientWF(c) && !istype(r, "*dataReader") && !istype(r, "*io.LimitedReader")
 //@   before (*Client).Rcpt: @C16 recipients-in-the-order-given: $1 == to[rangeindex + 1]
+//@   onlyuse @C16 r: io.Copy
 //@   before (*Client).Mail: @C16 sender-as-given: $1 == from
 //@   before (*Client).Data: @C16 every-recipient-given-was-sent-and-accepted-first: rangeindex + 1 >= len(to) && resultof("(*Client).Mail", 1, 1) == nil
 //@   modifies c.didGreet, c.greetError, c.didHello, c.helloError, c.ext, c.rcpts, c.rcpts[**], c.text.cmds, c.text.Reader.resps, *.dataCloser.closed, *.io.WriteCloser.closes, *elems string
@@ -1024,6 +1027,7 @@ package smtp
 //@   ensures @C10 client-is-on-tls: err == nil ==> c != nil && clientWF(c) && istype(c.conn, "*tls.Conn")
 
 //@ contract sendMail(addr, implicitTLS, a, from, to, r) (err)
+//@   onlyuse @C16 r: (*Client).SendMail
 //@   prop C10 C15 C16 C17
 //@   requires !istype(r, "*dataReader") && !istype(r, "*io.LimitedReader")
 //@   ensures @C16,C17 no-success-before-the-message-was-sent: !called("(*Client).SendMail") ==> err != nil
